@@ -26,7 +26,7 @@ from .. import sym, lift, setalg
 from . import zob, clocks
 from .c03 import piece_case
 from .movegen import SELF, STM, NSTM, PIECE, FILE, colors
-from .common import B, loc
+from .common import B, loc, enum_values, in_set3
 
 COLOR = "cozy_chess_types::color::Color"
 BLACK = ("enum", COLOR, "Black")
@@ -118,6 +118,20 @@ def decisions(L, p, moved):
             d["rk_" + e[3][2]] = b
         elif e[0] == "bin" and e[1] == "Eq" and ("enum", PIECE, "Knight") in (e[2], e[3]):
             pass
+    lifted = [(strip_ver(L.lift(c[0])), c[1]) for c in p.conds]
+    if "black" not in d:
+        bl = in_set3(enum_values(L.f, lifted, STM, COLOR), {1})
+        if bl is not None:
+            d["black"] = bl
+    # the double-push ranks may be tested through rank bitboards (handled above) or on the rank itself
+    if "from27" not in d:
+        r = in_set3(enum_values(L.f, lifted, ("rank", FROM), RANK), {1, 6})
+        if r is not None and len(enum_values(L.f, lifted, ("rank", FROM), RANK)) < 8:
+            d["from27"] = r
+    if "to45" not in d:
+        r = in_set3(enum_values(L.f, lifted, ("rank", TO), RANK), {3, 4})
+        if r is not None and len(enum_values(L.f, lifted, ("rank", TO), RANK)) < 8:
+            d["to45"] = r
     if d.get("ep_some") is False and "epcap" not in d:
         d["epcap"] = False          # no en-passant square: nothing to compare the destination with
     return d
